@@ -26,8 +26,17 @@ def attrOkB (a : OAttr) : Bool :=
     (a.pfx.isSome || a.name != xmlnsB) && pfxDataOkB a.valPfx
 /-- one uri per prefix among the value prefix data of one start tag -/
 def consistentB (R : Reserved) : Bool := R.all fun e => R.all fun e' => e.1 != e'.1 || e.2 == e'.2
-/-- the expanded name and the value of an attribute -/
-def attrKey (a : OAttr) : Bytes × Bytes × Bytes := (a.ns.getD [], a.name, a.value)
+/-- what a namespace-aware reader should report for an attribute: (namespace or empty, name, value) -/
+def viewAttr (a : OAttr) : Bytes × Bytes × Bytes := (a.ns.getD [], a.name, a.value)
+
+mutual
+/-- what a namespace-aware reader should report for an opaque node -/
+def oview : ONode → XElem
+  | .mk name _ ns value _ attrs kids => .mk (ns.getD []) name (attrs.map viewAttr) value (oviewList kids)
+def oviewList : List ONode → List XElem
+  | [] => []
+  | n :: r => oview n :: oviewList r
+end
 
 mutual
 /-- `inD`: an ancestor has a namespace (a default namespace is in scope).  Names are XML names; an element without namespace has
@@ -36,7 +45,7 @@ mutual
 def onodeOkB (inD : Bool) : ONode → Bool
   | .mk name _ ns value valPfx attrs kids =>
     nameOkB name && (ns.isSome || !inD) && optAll noCtlB ns && noCtlB value && pfxDataOkB valPfx && attrs.all attrOkB &&
-      noDupAttrs (attrs.map attrKey) && consistentB (reservedOf valPfx attrs) && olistOkB (inD || ns.isSome) kids
+      noDupAttrs (attrs.map viewAttr) && consistentB (reservedOf valPfx attrs) && olistOkB (inD || ns.isSome) kids
 def olistOkB (inD : Bool) : List ONode → Bool
   | [] => true
   | n :: r => onodeOkB inD n && olistOkB inD r
@@ -52,7 +61,7 @@ def onodeWhy (inD : Bool) : ONode → List String
     (if nameOkB name then [] else ["name"]) ++ (if ns.isSome || !inD then [] else ["no-namespace-under-default"]) ++
     (if optAll noCtlB ns && noCtlB value then [] else ["control-char"]) ++
     (if pfxDataOkB valPfx && attrs.all attrOkB then [] else ["attr-or-prefix-data"]) ++
-    (if noDupAttrs (attrs.map attrKey) then [] else ["duplicate-attr"]) ++
+    (if noDupAttrs (attrs.map viewAttr) then [] else ["duplicate-attr"]) ++
     (if consistentB (reservedOf valPfx attrs) then [] else ["inconsistent-value-prefixes"]) ++ olistWhy (inD || ns.isSome) kids
 def olistWhy (inD : Bool) : List ONode → List String
   | [] => []
